@@ -1,0 +1,15 @@
+//go:build verif
+
+// Contracts for package mapslicehelp, read by the verification-condition generator in /verif (gvc).
+// This file contains comments only; it is compiled only with the build tag "verif" and adds no code.
+package mapslicehelp
+
+// C08: the keys of the result are elements of the slice.
+//@ func AsKeys
+//@   prelude lists
+//@   loop element as i
+//@     invariant 0 - 1 <= i && i < len(elements) && !isNil(mapped)
+//@     invariant forall(k Int, hasKey(mapped, k) ==> inSlice(elements, k), trigger(hasKey(mapped, k)))
+//@     loopuse i + 1 < len(elements) ==> idxOf_def(elements, elements[i + 1], i + 1)
+//@     decreases len(elements) - i
+//@   ensures[C08,C05] !isNil(result) && forall(k Int, hasKey(result, k) ==> inSlice(elements, k), trigger(hasKey(result, k)))
